@@ -135,6 +135,12 @@ func c12Eval(c *fw.Ctx, k c12Case) (sig, desc string, nontrivial bool) {
 	(&BFile{L: l, Rings: r2}).Write(filepath.Join(root, "g", "c d+e&f.wsp"))
 	(&BFile{L: l, Rings: r1}).Write(filepath.Join(root, "it", "z w", "a b.wsp"))
 	(&BFile{L: l, Rings: r1}).Write(filepath.Join(root, "sp ace%41#.wsp"))
+	// ... and whose special characters are part of the PATTERN the client sends (a decoy matches the mis-decoded form)
+	(&BFile{L: l, Rings: r1}).Write(filepath.Join(root, "it", "p+q&r", "a+b&c.wsp"))
+	(&BFile{L: l, Rings: r2}).Write(filepath.Join(root, "it", "p q", "a b.wsp"))
+	(&BFile{L: l, Rings: r2}).Write(filepath.Join(root, "it", "p+q&r", "a b.wsp"))
+	(&BFile{L: l, Rings: r1}).Write(filepath.Join(root, "g", "x+y&z=1.wsp"))
+	(&BFile{L: l, Rings: r2}).Write(filepath.Join(root, "g", "x y.wsp"))
 	file, glob, item, srcpat := "a.wsp", "g/*.wsp", "it/*", "*.wsp"
 	switch k.Target {
 	case "missing":
@@ -143,6 +149,8 @@ func c12Eval(c *fw.Ctx, k c12Case) (sig, desc string, nontrivial bool) {
 		file, glob, item, srcpat = "nodir/a.wsp", "g/z*.wsp", "no/*", "*.wsp"
 	case "odd-name":
 		file, glob, item, srcpat = "sp ace%41#.wsp", "g/c*.wsp", "it/z*", "a*.wsp"
+	case "odd-pattern":
+		file, glob, item, srcpat = "g/x+y&z=1.wsp", "g/x+y&z*.wsp", "it/p+q&r", "a+b&*.wsp"
 	case "big":
 		file, glob, item, srcpat = "big/a.wsp", "big/*.wsp", "bigit/*", "*.wsp"
 		bl := wsp.Layout{Archs: wsp.ParseLayout("1s:150000s,60s:600000s"), Method: 2}
@@ -195,8 +203,10 @@ func c12Eval(c *fw.Ctx, k c12Case) (sig, desc string, nontrivial bool) {
 		case "copy-glob":
 			cmd = &wcmd.CopyCommand{SrcBase: base, SrcRelPath: glob, DestBase: ddir, AggregationMethod: wt.Sum, ArchiveInfoList: archList(l.Archs), From: tsOf(k.From), Until: tsOf(k.Until), ArchiveID: k.Archive, TextOut: out, CopyNaN: k.Sort}
 		case "sum-diff":
-			(&BFile{L: l, Rings: r1}).Write(filepath.Join(ddir, "it", "x", "sum.wsp"))
-			(&BFile{L: l, Rings: r2}).Write(filepath.Join(ddir, "it", "y", "sum.wsp"))
+			// every item has a destination: a missing one plus another fault would be a two-fault race (see DESIGN 15.2)
+			for i, it := range []string{"x", "y", "z w", "p+q&r", "p q"} {
+				(&BFile{L: l, Rings: [][]wsp.Ring{r1, r2}[i%2]}).Write(filepath.Join(ddir, "it", it, "sum.wsp"))
+			}
 			cmd = &wcmd.SumDiffCommand{SrcBase: base, ItemPattern: item, SrcPattern: srcpat, DestBase: ddir, DestRelPath: "sum.wsp", From: tsOf(k.From), Until: tsOf(k.Until), ArchiveID: k.Archive, TextOut: out}
 		}
 		err, pn := RunCommand(k.Now, cmd)
@@ -206,7 +216,7 @@ func c12Eval(c *fw.Ctx, k c12Case) (sig, desc string, nontrivial bool) {
 		}
 		o.es += firstLine(pn)
 		if strings.HasPrefix(k.Cmd, "copy") {
-			for _, f := range []string{"a.wsp", "g/a.wsp", "g/b.wsp", "g/c d+e&f.wsp", "sp ace%41#.wsp", "big/a.wsp"} {
+			for _, f := range []string{"a.wsp", "g/a.wsp", "g/b.wsp", "g/c d+e&f.wsp", "sp ace%41#.wsp", "big/a.wsp", "g/x+y&z=1.wsp", "g/x y.wsp"} {
 				b, _ := os.ReadFile(filepath.Join(ddir, f))
 				o.dest = append(o.dest, b...)
 			}
@@ -265,7 +275,7 @@ func runC12(c *fw.Ctx) {
 				}
 			}
 			for _, cmd := range []string{"view", "view-raw", "sum", "diff", "diff-glob", "copy", "copy-glob", "sum-diff"} {
-				for _, target := range []string{"existing", "missing", "nomatch", "odd-name"} {
+				for _, target := range []string{"existing", "missing", "nomatch", "odd-name", "odd-pattern"} {
 					for ai, arch := range []int{-1, 0, 1, 2} {
 						for wi, w := range wins {
 							idx++
